@@ -20,7 +20,7 @@ ASSUMPTIONS = [
 ]
 LEVEL = "other"
 NOT_COVERED = ["sufficiency: that every RFC-valid request / response is accepted (text functions are over-approximated)",
-               "the origin policy functions _url_to_origin / _is_same_origin / wildcards2patterns themselves",
+               "wildcards2patterns (regular expressions built with str.replace chains)",
                "succeedHandshake (response construction), request construction (_actuallyStartHandshake, parse_url / "
                "create_url)", "parseHttpHeader itself", "Sec-WebSocket-Extensions handling (C12)",
                "X-Forwarded-For handling, the Flash policy branch"]
